@@ -217,14 +217,14 @@ def adjB (g : Grp) (X out go : DVec α) : DVec α × DVec α :=
   (pad0 (DMat.vecMul (DVec.neg go) (adMat g out)), DMat.vecMul go (AdjMat g X))
 
 /-- `*_AdjTXa.backward` (saved: `X, a`).  Two different code shapes:
-`SO3`/`RxSO3`: `a_grad = AdjXa(X, grad_output)`, `X_grad = -a @ adj(a_grad)`;
-`SE3`/`Sim3` : `a_grad = grad_output @ Adj(Inv(X))`, `X_grad = a_grad @ adj(a)`. -/
+`SO3`               : `a_grad = AdjXa(X, grad_output)`, `X_grad = -a @ adj(a_grad)`;
+`SE3`/`RxSO3`/`Sim3`: `a_grad = grad_output @ Adj(Inv(X))`, `X_grad = a_grad @ adj(a)`. -/
 def adjTB (g : Grp) (X a go : DVec α) : DVec α × DVec α :=
   match g with
-  | .SO3 | .RxSO3 =>
+  | .SO3 =>
     let ag := adjF g X go
     (pad0 (DMat.vecMul (DVec.neg a) (adMat g ag)), ag)
-  | .SE3 | .Sim3 =>
+  | .SE3 | .RxSO3 | .Sim3 =>
     let ag := DMat.vecMul go (AdjMat g (invF g X))
     (pad0 (DMat.vecMul ag (adMat g a)), ag)
 
